@@ -613,11 +613,14 @@ class Op:
         self.rec.end_op(self.prev)
 
 
-def _wait_quiet(eng, rec, deadline, polls=4, pause=0.004):
+def _wait_quiet(eng, rec, deadline, polls=4, pause=0.004, equal=False):
     """poll the public busy property until it has been false `polls` times in a row and no provider call was issued
-    meanwhile; False when the deadline passes first"""
+    meanwhile; with equal=True also until both relative trees are equal.  `busy` alone is momentarily false while an
+    event is between the provider's cursor and the pending set, so on a loaded machine it is not a reliable bracket for
+    the folder operations of the clean domain; tree equality is the ground truth there.  False when the deadline passes."""
     calm = 0
     last = -1
+    world = eng.world
     while _rt.time() < deadline:
         with Op(rec, entry_label(eng.cs, "busy")):
             try:
@@ -625,7 +628,13 @@ def _wait_quiet(eng, rec, deadline, polls=4, pause=0.004):
             except Exception:
                 b = True
         n = eng.call_index
-        if not b and n == last:
+        same = True
+        if equal and not b:
+            try:
+                same = views_agree([world.view(0), world.view(1)])
+            except RuntimeError:          # the fixture's dictionaries changed under the snapshot
+                same = False
+        if not b and n == last and same:
             calm += 1
             if calm >= polls:
                 return True
@@ -651,7 +660,10 @@ def _public_call(eng, world, rec, rng, smart, stats):
     name = None
     try:
         if not smart or r < 0.35:
-            k = rng.choice(["busy", "change_count", "translate", "walk", "wake", "aging", "lock+busy"])
+            # walk() turns a snapshot of the tree into queued events: called while users act it is event delay across the
+            # brackets of the clean domain (finding E-10, C14).  Where convergence is judged it is called at quiet points
+            # only (schedule action "walk"); concurrently only in the SmartCloudSync runs (lock discipline only).
+            k = rng.choice(["busy", "change_count", "translate", "wake", "aging", "lock+busy"] + (["walk"] if smart else []))
             name = "lock+CloudSync.busy" if k == "lock+busy" else "CloudSync." + k
             with Op(rec, name):
                 if k == "busy":
@@ -742,7 +754,8 @@ def run_threaded(case, budget_s=25.0):
         for op in case.get("base_other", []):
             world.user(1, op)
         eng.cs.start()
-        q0 = _wait_quiet(eng, rec, deadline)
+        eq = not smart
+        q0 = _wait_quiet(eng, rec, deadline, equal=eq)
 
         def caller(idx):
             rng = random.Random("%s/caller/%d" % (case.get("seed", 0), idx))
@@ -762,23 +775,28 @@ def run_threaded(case, budget_s=25.0):
             th.start()
         ok = q0
         for act in case["schedule"]:
-            if _rt.time() > deadline:
+            if _rt.time() > deadline or not ok:
+                # a bracket that was not reached: what follows would leave the clean domain; stop here (inconclusive)
                 ok = False
                 break
             if act[0] == "user":
                 world.user(act[1], act[2])
             elif act[0] == "drain":
-                ok = _wait_quiet(eng, rec, deadline) and ok
+                ok = _wait_quiet(eng, rec, deadline, equal=eq) and ok
+            elif act[0] == "walk":
+                with Op(rec, entry_label(eng.cs, "walk")):
+                    eng.cs.walk(act[1])
+                stats["calls"]["CloudSync.walk"] = stats["calls"].get("CloudSync.walk", 0) + 1
             elif act[0] == "forget":
                 with Op(rec, entry_label(eng.cs, "forget")):
                     eng.cs.forget()
                 stats["calls"]["CloudSync.forget"] = stats["calls"].get("CloudSync.forget", 0) + 1
-        ok = _wait_quiet(eng, rec, deadline) and ok
+        ok = _wait_quiet(eng, rec, deadline, equal=eq) and ok
         stopflag.set()
         for th in callers[:-1]:
             th.join(10)
         # the callers may have queued work (walk, requests): let the engine finish it, the waker still running
-        ok = _wait_quiet(eng, rec, max(deadline, _rt.time() + 3.0)) and ok
+        ok = _wait_quiet(eng, rec, max(deadline, _rt.time() + 3.0), equal=eq) and ok
         out["quiet"] = ok
         out["timeout"] = not ok
     finally:
@@ -1121,7 +1139,12 @@ def thr_plain(rng):
     """clean-domain history (one-sided or disjoint), CloudSync, 2 application threads calling public methods"""
     from . import families as F
     case = _small(F.one_sided if rng.random() < 0.5 else F.disjoint, rng)
-    case.update(smart=False, callers=2, yield_every=rng.choice([3, 5, 7, 11]), switch=rng.choice([1e-6, 1e-5, 1e-4]),
+    sched = []
+    for a in case["schedule"]:
+        sched.append(a)
+        if a[0] == "drain" and rng.random() < 0.3:
+            sched += [["walk", rng.choice([0, 1, None])], ["drain"]]
+    case.update(schedule=sched, smart=False, callers=2, yield_every=rng.choice([3, 5, 7, 11]), switch=rng.choice([1e-6, 1e-5, 1e-4]),
                 seed=rng.randint(0, 10 ** 9), kind="thr_plain")
     return case
 
